@@ -21,7 +21,7 @@ Ts(cls, d) == [month |-> F(cls, 15), date |-> F(cls, 31), hour |-> F(cls, 31) , 
 Mk(hi, lo, cls, fl, el, shape) ==
   LET cdrs == [i \in 1..Len(shape) |->
                  [rel |-> shape[i][1], ver |-> F(cls, 31), fmt |-> IF cls = "zero" THEN 1 ELSE F(cls, 7), ts |-> F(cls, 31),
-                  relExt |-> IF shape[i][1] = 7 THEN (CASE cls = "zero" -> 0 [] cls = "max" -> 255 [] OTHER -> 10 + i) ELSE 0, payload |-> Payload(shape[i][2], i)]]
+                  relExt |-> IF shape[i][1] = 7 THEN (CASE cls = "zero" -> 0 [] cls = "max" -> 255 [] OTHER -> 10 + i) ELSE 0, payload |-> Payload(shape[i][2], i % 8)]]   \* (run tokens carry a pattern number 0..7)
       h0 == [fileLength |-> <<0, 0, 0, 0>>, headerLength |-> <<0, 0, 0, 0>>,
              hiRel |-> hi, hiVer |-> F(cls, 31), loRel |-> lo, loVer |-> IF cls = "max" THEN 30 ELSE F(cls, 31),
              openTs |-> Ts(cls, 0), lastTs |-> Ts(cls, 1),
